@@ -97,7 +97,7 @@ def gen_case(rng, tier):
     jitter = rng.choice([False, False, 0.1, -0.1, 0.5, -0.5, 1.0, -1.0, True, 0.999, -0.25])
     api = rng.choice(['backoff', 'backoff_iter'])
     case = {'start': start, 'stop': stop, 'factor': factor, 'count': count, 'jitter': jitter,
-            'api': api, 'script': _gen_script(rng), 'k_hint': k}
+            'api': api, 'script': _gen_script(rng), 'k_hint': k, 'mutate': rng.choice(['clear', 'append'])}
     if rng.random() < 0.06:
         if rng.random() < 0.5:
             case['factor'] = 1.0
@@ -223,6 +223,20 @@ def run_case(case):
             if list(lst) != vals:
                 out.fail('list-form-differs', 0, 'backoff(%r, %r, %r) returned %r, backoff_iter yields %r'
                          % (s, t, kw, list(lst)[:12], vals[:12]), clause='api')
+            elif isinstance(lst, list):
+                # a caller may consume or edit its list (pop the delays it has used, append a final
+                # one ...): the next call with equal arguments must be unaffected
+                if case.get('mutate', 'clear') == 'clear':
+                    del lst[:]
+                else:
+                    lst.append(-1.0)
+                it.random = SimRandom(case['script'], None)
+                again = it.backoff(s, t, **kw)
+                it.random = rnd
+                if list(again) != vals:
+                    out.fail('result-shared-between-calls', 0,
+                             'backoff(%r, %r, %r): after the caller edited the returned list, an equal call returned %r instead of %r'
+                             % (s, t, kw, list(again)[:12], vals[:12]), clause='api')
     except Exception as e:
         exc = e
     log.add('vals', repr(vals), type(exc).__name__ if exc else None)
